@@ -187,6 +187,11 @@ class WMSSource(MapLayer):
                 query.dimensions_for_params(other.fwd_req_params)):
             return False
 
+        # the combined source has no res_range: only combine sources that render this query
+        for layer in (self, other):
+            if layer.res_range and not layer.res_range.contains(query.bbox, query.size, query.srs):
+                return False
+
         return True
 
     def combined_layer(self, other, query):
